@@ -29,6 +29,8 @@ pub enum PI {
     Push { r: u8 },
     Pop { r: u8 },
     Syscall,
+    /// int imm8 (only placed by C20: an interrupt nobody hooks ends the run in an error whose text is compared)
+    Int { n: u8 },
     Cld,
     /// mov [rsp+d], r64
     StoreRsp { d: i8, r: u8 },
@@ -189,6 +191,7 @@ pub fn assemble(prog: &[PI], base: u64) -> Vec<u8> {
                 enc1(Instruction::with1(Code::Pop_r64, r(k)).unwrap(), ip, &mut b);
             }
             PI::Syscall => b.extend_from_slice(&[0x0f, 0x05]),
+            PI::Int { n } => b.extend_from_slice(&[0xcd, *n]),
             PI::Cld => b.push(0xfc),
             PI::StoreRsp { d, r: k } => {
                 enc1(Instruction::with2(Code::Mov_rm64_r64, iced_x86::MemoryOperand::with_base_displ(Register::RSP, *d as i64), r(k)).unwrap(), ip, &mut b);
